@@ -128,6 +128,24 @@ class PubSubRun:
             res = {'op': op, '_ev0': len(self.r.events)}
             self.drain()
             self.r._collect(res)
+        elif kind == 'emit_fault':
+            # ['emit_fault', token, to, ns, fault]: an emit one half of which
+            # fails - the local delivery (payload that cannot be encoded) or
+            # the publication (backend unreachable)
+            _, token, to, ns, fault = op
+            res = {'op': op, '_ev0': len(self.r.events)}
+            data = {'t': token}
+            if fault == 'unserialisable':
+                data = {'t': token, 'bad': {1, 2}}
+            else:
+                self.m.fail_next_publish = True
+            try:
+                self.r.d.api('emit', 'tok%s' % token, data,
+                             to=self.r.resolve(to), namespace=ns)
+            except Exception as e:
+                res['exc'] = type(e).__name__
+            self.m.fail_next_publish = False
+            self.r._collect(res)
         else:
             res = self.r.step(op)
         pub = []
@@ -238,7 +256,7 @@ def gen_pubsub_script(rng):
     n = rng.choice([15, 30, 50])
     for _ in range(n):
         r = rng.random()
-        if r < 0.22:
+        if r < 0.20:
             tok[0] += 1
             to = target()
             cb = None
@@ -250,6 +268,13 @@ def gen_pubsub_script(rng):
             s_ns = to[2] if isinstance(to, list) and to[0] == 'sid' \
                 else rng.choice(NAMESPACES + [None])
             ops.append(['emit', tok[0], to, skip, s_ns, cb, data()])
+        elif r < 0.24:
+            tok[0] += 1
+            to = sid(False) if rng.random() < 0.7 else rng.choice(ROOMS)
+            ops.append(['emit_fault', tok[0], to,
+                        to[2] if isinstance(to, list) else
+                        rng.choice(NAMESPACES),
+                        rng.choice(['unserialisable', 'publish_fails'])])
         elif r < 0.32:
             s = sid()
             ops.append([rng.choice(['enter', 'leave']), s, rng.choice(ROOMS),
@@ -360,6 +385,8 @@ def part_pubsub(ctx, k):
     ctx.count('pubsub_ops_compared', len(ops))
     ctx.count('pubsub_messages_compared',
               sum(len(e['published']) for e in ta))
+    ctx.count('pubsub_faulted_emits',
+              sum(1 for op in ops if op[0] == 'emit_fault'))
     ctx.count('pubsub_injected_messages',
               sum(1 for op in ops if op[0] == 'inject'))
     ctx.count('pubsub_frames_compared',
